@@ -34,7 +34,7 @@ class C02(Check):
     reference_models = ["ref/refext4.py: independent ext2/3/4 reader and consistency checker (no libext2fs code)"]
 
     def budget(self, tier):
-        return {"runs": 1500, "wall_s": 80} if tier == "quick" else {"runs": 60000, "wall_s": 1500}
+        return {"runs": 2500, "wall_s": 90} if tier == "quick" else {"runs": 60000, "wall_s": 1500}
 
     def generate(self, rng, tier):
         kind = rng.weighted([("faults", 14), ("crashed_writer", 4), ("journal+faults", 1)])
@@ -50,6 +50,8 @@ class C02(Check):
             return o
         feats = ",".join(st["cfg"]["features"])
         sig = "+".join(sorted(set(f["cls"] for f in st["faults"]))) or spec["state"]
+        for c_ in set(f["cls"].split("~")[0] for f in st["faults"]):
+            o.stats["fault." + c_] += 1
         r, codes = e2fsck(st["img"], ["-fn"], wd, tag="fn", clock=1500010000, keep_log=True)
         o.trace = log_hash(r.events)
         o.sim_us += r.sim_us
